@@ -107,7 +107,12 @@ func (p *Path) freshRand(label string, w int) *Term {
 func extRandSourceInt63(fr *frame, a []value) value {
 	if cell, ok := a[0].(*value); ok && cell != nil {
 		if r := fr.raceOn(); r != nil && len(fr.p.sched.gs) > 1 {
-			fr.raceAccessCell(r, cell, true, 0)
+			// report the site of the call (the model itself has no instruction)
+			af := fr
+			if af.curInstr == nil && af.caller != nil {
+				af = af.caller
+			}
+			af.raceAccessCell(r, cell, true, 0)
 		}
 	}
 	return extRandInt63(fr, a)
